@@ -28,6 +28,7 @@ import (
 	"github.com/caddyserver/certmagic"
 	"go.uber.org/zap"
 	"go.uber.org/zap/zapcore"
+	"golang.org/x/net/idna"
 
 	"github.com/caddyserver/caddy/v2"
 	"github.com/caddyserver/caddy/v2/caddyconfig/caddyfile"
@@ -52,6 +53,22 @@ func (MatchServerName) CaddyModule() caddy.ModuleInfo {
 		ID:  "tls.handshake_match.sni",
 		New: func() caddy.Module { return new(MatchServerName) },
 	}
+}
+
+// Provision converts internationalized names in m to their ASCII
+// (punycode) form, which is what clients put into the ClientHello;
+// the HTTP host matcher does the same with its host names.
+func (m MatchServerName) Provision(_ caddy.Context) error {
+	for i, name := range m {
+		asciiName, err := idna.ToASCII(name)
+		if err != nil {
+			return fmt.Errorf("converting server name '%s' to ASCII: %v", name, err)
+		}
+		if asciiName != name {
+			m[i] = asciiName
+		}
+	}
+	return nil
 }
 
 // Match matches hello based on SNI.
@@ -498,6 +515,7 @@ var (
 	_ ConnectionMatcher = (*MatchServerNameRE)(nil)
 
 	_ caddy.Provisioner = (*MatchLocalIP)(nil)
+	_ caddy.Provisioner = (*MatchServerName)(nil)
 	_ caddy.Provisioner = (*MatchRemoteIP)(nil)
 	_ caddy.Provisioner = (*MatchServerNameRE)(nil)
 
